@@ -21,12 +21,22 @@ func storeValue(gid, k uint32) uint32 { return gid ^ k }
 
 // buildStoreKernel assembles
 //
-//	gid = wgid.x*wg + tid.x; if gid < N { out[gid << shift] = gid ^ K }
+//	gid = wgid.x*wg + tid.x; if gid < N { for j < w: out[(gid << shift)*w + j] = (gid*w + j) ^ K }
 //
-// as GCN3 machine code (dword flat stores: the only store width both the
-// emulator and the timing model implement). wait adds s_waitcnt vmcnt(0)
-// before s_endpgm.
-func buildStoreKernel(wg int, wait bool, shift int) *insts.KernelCodeObject {
+// as GCN3 machine code; the w dwords of a work-item go out in one
+// flat_store_dword / dwordx2 / dwordx4. wait adds s_waitcnt vmcnt(0) before
+// s_endpgm.
+func buildStoreKernel(wg int, wait bool, shift, w int) *insts.KernelCodeObject {
+	logW, storeOp := 0, kasm.OpFlatStoreDword
+	switch w {
+	case 1:
+	case 2:
+		logW, storeOp = 1, kasm.OpFlatStoreDwordx2
+	case 4:
+		logW, storeOp = 2, kasm.OpFlatStoreDwordx4
+	default:
+		panic("harness: store width")
+	}
 	a := kasm.New()
 	const (
 		sKernarg = 0
@@ -37,9 +47,9 @@ func buildStoreKernel(wg int, wait bool, shift int) *insts.KernelCodeObject {
 		sT0      = 16
 		sSave    = 20
 		vGID     = 3
-		vVal     = 4
 		vOff     = 5
 		vAddr    = 6
+		vVal     = 8 // .. vVal+3
 	)
 	a.SMEM(kasm.OpSLoadDwordx2, kasm.S(sOut), kasm.S(sKernarg), 0)
 	a.SMEM(kasm.OpSLoadDwordx2, kasm.S(sN), kasm.S(sKernarg), 8)
@@ -50,12 +60,17 @@ func buildStoreKernel(wg int, wait bool, shift int) *insts.KernelCodeObject {
 	a.VOPC(kasm.OpVCmpGtU32, kasm.S(sN), kasm.V(vGID))
 	a.SOP1(kasm.OpSAndSaveexecB64, kasm.S(sSave), kasm.VCC)
 	a.Branch(kasm.OpSCbranchExecz, "end")
-	a.VOP2(kasm.OpVXorB32, kasm.V(vVal), kasm.S(sK), kasm.V(vGID))
-	a.VOP2(kasm.OpVLshlrevB32, kasm.V(vOff), kasm.Imm(int32(2+shift)), kasm.V(vGID))
+	// v4 = gid*w
+	a.VOP2(kasm.OpVLshlrevB32, kasm.V(4), kasm.Imm(int32(logW)), kasm.V(vGID))
+	for j := 0; j < w; j++ {
+		a.VOP2(kasm.OpVAddU32, kasm.V(vVal+j), kasm.Imm(int32(j)), kasm.V(4))
+		a.VOP2(kasm.OpVXorB32, kasm.V(vVal+j), kasm.S(sK), kasm.V(vVal+j))
+	}
+	a.VOP2(kasm.OpVLshlrevB32, kasm.V(vOff), kasm.Imm(int32(2+shift+logW)), kasm.V(vGID))
 	a.VOP2(kasm.OpVAddU32, kasm.V(vAddr), kasm.S(sOut), kasm.V(vOff))
 	a.VOP1(kasm.OpVMovB32, kasm.V(vAddr+1), kasm.S(sOut+1))
 	a.VOP2(kasm.OpVAddcU32, kasm.V(vAddr+1), kasm.Imm(0), kasm.V(vAddr+1))
-	a.FLAT(kasm.OpFlatStoreDword, kasm.None, kasm.V(vAddr), kasm.V(vVal))
+	a.FLAT(storeOp, kasm.None, kasm.V(vAddr), kasm.V(vVal))
 	a.Label("end")
 	if wait {
 		a.Waitcnt(0, 7, 15)
@@ -70,7 +85,7 @@ func buildStoreKernel(wg int, wait bool, shift int) *insts.KernelCodeObject {
 		KernelCodeEntryByteOffset:   0,
 		EnableSgprKernargSegmentPtr: true,
 		WFSgprCount:                 32,
-		WIVgprCount:                 8,
+		WIVgprCount:                 12,
 		// user SGPRs = 2 (kernarg pointer); work-group id x,y,z; work-item id x,y,z
 		ComputePgmRsrc2: 2<<1 | 1<<7 | 1<<8 | 1<<9 | 2<<11,
 	}
